@@ -387,3 +387,22 @@ package version
 //@   loop 2 invariant forall(i, 0, len(c.levelInputs), delAt(c, old(len(cast(c.editLog, "*editLog").logs)) + i, c.level, c.levelInputs[i].fileNumber))
 //@   loop 2 invariant forall(i, 0, rangeindex + 1, delAt(c, old(len(cast(c.editLog, "*editLog").logs)) + len(c.levelInputs) + i, c.level + 1, c.levelUpInputs[i].fileNumber))
 //@ end
+
+//@ # ---- replaying the manifest (C01 "every family shows exactly the content of the commits that had returned"): every
+//@ # record the journal reader presents is applied - a store-level record to the version set, a family-level record to its
+//@ # family version - before the next record is read, and recovery reports success only when no record is left unapplied;
+//@ # a record that cannot be decoded, or whose family is unknown, fails the recovery instead of being skipped. Thin
+//@ # contract over a ghost protocol flag (what apply does to a version is EditLog.apply, assumed) ---------------------
+//@ ghost field storeVersionSet.recordNotApplied bool
+//@ stable storeVersionSet.recordNotApplied
+//@ func storeVersionSet.recover
+//@   prop C01
+//@   focus a_record_read_from_the_manifest_is_applied_before_recovery_goes_on
+//@   ghost_entry vs.recordNotApplied = false
+//@   ghost_after BufioEntryReader.Read vs.recordNotApplied = true
+//@   ghost_after EditLog.applyVersionSet vs.recordNotApplied = false
+//@   ghost_after storeVersionSet.applyFamilyVersion vs.recordNotApplied = (result != nil)
+//@   modifies *
+//@   ensures[a_record_read_from_the_manifest_is_applied_before_recovery_goes_on] result == nil ==> !vs.recordNotApplied
+//@   loop 1 invariant[a_record_read_from_the_manifest_is_applied_before_recovery_goes_on] !vs.recordNotApplied
+//@ end
